@@ -1,0 +1,50 @@
+//go:build verif
+
+package cache
+
+// This file is only built with the "verif" build tag. It exposes the dump
+// writer/reader and the stored items of the cache plugin to the external
+// verification harness (property C19). It adds no behaviour.
+
+import (
+	"io"
+	"time"
+
+	"github.com/miekg/dns"
+)
+
+const (
+	VerifDumpHeader             = dumpHeader
+	VerifDumpBlockSize          = dumpBlockSize
+	VerifDumpMaximumBlockLength = dumpMaximumBlockLength
+)
+
+// VerifItem is one stored cache item with its three times.
+type VerifItem struct {
+	Key      string
+	Resp     *dns.Msg
+	Stored   time.Time
+	MsgExp   time.Time
+	CacheExp time.Time
+}
+
+// VerifStore stores an item exactly like saveRespToCache does, but with
+// caller-chosen times (backend.Store ignores it when cacheExp is in the past).
+func (c *Cache) VerifStore(it VerifItem) {
+	c.backend.Store(key(it.Key), &item{resp: it.Resp, storedTime: it.Stored, expirationTime: it.MsgExp}, it.CacheExp)
+}
+
+// VerifItems lists every item the backend currently holds (Range order).
+func (c *Cache) VerifItems() []VerifItem {
+	var out []VerifItem
+	_ = c.backend.Range(func(k key, v *item, cacheExp time.Time) error {
+		out = append(out, VerifItem{Key: string([]byte(k)), Resp: v.resp, Stored: v.storedTime, MsgExp: v.expirationTime, CacheExp: cacheExp})
+		return nil
+	})
+	return out
+}
+
+func (c *Cache) VerifLen() int { return c.backend.Len() }
+
+func (c *Cache) VerifWriteDump(w io.Writer) (int, error) { return c.writeDump(w) }
+func (c *Cache) VerifReadDump(r io.Reader) (int, error)  { return c.readDump(r) }
